@@ -360,6 +360,9 @@ CO_ERR COSdoDownloadExpedited(CO_SDO *srv)
             srv->Obj = 0;
             result   = CO_ERR_NONE;
         }
+    } else if (size > 4) {
+        /* size not indicated: object does not fit into an expedited transfer */
+        COSdoAbort(srv, CO_SDO_ERR_LEN);
     }
     return (result);
 }
